@@ -552,6 +552,11 @@ func guardSummary(g *ssa.Function) []guardFact {
 
 // definitelyNonNilError: the returned error value is a freshly made error (a call of a function
 // that constructs one, or a boxed pointer to a composite literal).
+// (functions under inspection are remembered: two functions that return each other's results would
+// otherwise send this into unbounded recursion; a result that depends on itself is not "definitely"
+// anything)
+var nonNilErrBusy = map[*ssa.Function]bool{}
+
 func definitelyNonNilError(v ssa.Value) bool {
 	switch x := origin(v).(type) {
 	case *ssa.MakeInterface:
@@ -569,6 +574,11 @@ func definitelyNonNilError(v ssa.Value) bool {
 				return true
 			}
 			if inMod(sc) && len(sc.Blocks) > 0 {
+				if nonNilErrBusy[sc] {
+					return false
+				}
+				nonNilErrBusy[sc] = true
+				defer delete(nonNilErrBusy, sc)
 				// a module constructor all of whose returns are such values
 				all := true
 				for _, r := range returns(sc) {
